@@ -24,7 +24,7 @@ def case_strategy(profile):
 def profile_from(switches):
     prof = {}
     for s in switches:
-        if s.startswith("c01."):
+        if s.startswith("c01.") or s.startswith("gen."):
             prof[s[4:]] = True
     return prof
 
